@@ -45,6 +45,7 @@ Section Render.
     | Msg t d v =>
       DObj [("Tag"%string, DStr (marshal_tag t)); ("DataType"%string, DStr (dt_string d));
             ("Value"%string, match v with
+                             | GMsgs [] => DNull       (* the decoder returns a nil slice for a container without items: encoding/json prints null *)
                              | GMsgs kids => DArr ((fix go (l : list message) := match l with [] => [] | x :: r => msg_json x :: go r end) kids)
                              | _ => leaf_json v end)]
     end.
